@@ -98,6 +98,10 @@ func main() {
 		wsCases(r, emit)
 		runTexts(r, c, cases, "whitespace_amounts")
 
+		cases = cases[:0]
+		skippedCharCases(r, func(tc textCase, _ bool) { cases = append(cases, tc) })
+		runTexts(r, c, cases, "skipped_char_insertions")
+
 		rng := r.RNG("c08-random-mutants")
 		const batch = 250_000
 		for left := r.Pick(300_000, 4_000_000); left > 0; left -= batch {
